@@ -59,6 +59,19 @@ CHECKS = {
               "and every value is checked against the bounds in its arguments."),
         note="Trusted: entropy reaches the library only via randfunc / Crypto.Random (os.urandom captured before import). Exact uniformity decided for ranges <= 600 and <= 16 bits; cryptographic sizes only via boundary tapes.",
         ref="DESIGN.md §4 C18"),
+    "C19": dict(
+        technique="race detector + metamorphic history monitor: ThreadSanitizer build under 2-16 threads, per-thread transcripts vs solo runs, interleaved-vs-isolated programs, argument snapshots, first-use races with sys.monitoring yield injection",
+        text=("(a) the C sources are rebuilt with -fsanitize=thread and 2/4/8/16 Python threads (switch interval 1us; ctypes releases the GIL so native code really runs in "
+              "parallel) run the same kinds of objects - all hashes incl. MD2/MD4/RIPEMD, XOFs, MACs, every block cipher and mode, AEADs, stream ciphers, KDFs, modexp, EC "
+              "on nine curves, RSA/DSA/ECDSA/EdDSA sign+verify and ECDH/HPKE with shared read-only key objects, shared points as operands - on different data: any data-race "
+              "report with a library frame is a violation; (b) every thread's per-item transcript digest must equal the same seeded workload run alone (plain and tsan builds), "
+              "plus an 8-thread hash hammer; (c) random interleavings of several live objects with copies, divergent clones, neighbour destruction and gc must equal isolated runs "
+              "(also on the ASan build); (d) byte snapshots of every mutable argument before/after calls, hash/XOF objects handed to signers keep digest, updatability and future "
+              "output, operand points unchanged; (e) 9 curves x 10/100 trials, each in a fresh process: 2-8 threads released by a barrier onto generate/construct/import_key/"
+              "EccPoint of an untouched curve while sys.monitoring LINE callbacks inject seeded yields inside the curve-loading modules; no exception, identical curve object, "
+              "result equal to the single-threaded one; distinct yield schedules are counted."),
+        note="Trusted: TSan's interception of the GIL hand-offs (measured silent on legitimate workloads). A race needs both accesses in one run: 'no race observed in K runs'. Sharing one mutable object between threads is outside the statement and never done.",
+        ref="DESIGN.md §4 C19"),
     "C20": dict(
         technique="runtime monitor: reference-model oracle (independent GF(2^128) + Lagrange) over entropy-tape-driven split/combine executions",
         text=("Every split() runs under a recorded entropy tape; the monitor interpolates the returned shares with an "
